@@ -21,7 +21,8 @@ Two layers:
   the label(s) from the thread's program counter and applies `gstep`; nothing else touches `G`.
 
 The Go-visible fields of an entry are `refs value err` and the write lock `wlocked`;
-`pool` is `up.pool`; `rangers` is the number of `Range` calls holding `up.RLock()`.
+`pool` is `up.pool`.  No pool lock is ever held across a region boundary (`Range` and `References`
+are single regions), so the pool lock needs no state of its own.
 -/
 namespace CaddyModel.C04
 
@@ -45,7 +46,6 @@ structure Entry where
   del3 : Nat := 0               -- Delete: value read, before Destruct()
   destructed : Nat := 0         -- number of times Destruct() ran on this entry's value
   ctorRuns : Nat := 0           -- number of completed construct() calls for this entry
-  refReaders : Nat := 0         -- References: pointer fetched, before atomic.LoadInt32
 deriving DecidableEq, Repr, Inhabited
 
 structure G where
@@ -53,26 +53,24 @@ structure G where
   ent : Nat → Entry             -- heap of entries; ids `0 … next-1` are allocated
   next : Nat
   nextVal : Nat                 -- next fresh value number
-  rangers : Nat                 -- Range calls currently holding up.RLock()
 
-def G.init : G := ⟨fun _ => none, fun _ => {}, 0, 1, 0⟩
+def G.init : G := ⟨fun _ => none, fun _ => {}, 0, 1⟩
 
 /-- `e` is the entry currently stored in the map under its own key -/
 def inPool (s : G) (e : Nat) : Bool := s.pool (s.ent e).key == some e
 
 def updEnt (s : G) (e : Nat) (f : Entry → Entry) : G :=
-  ⟨s.pool, fun i => if i = e then f (s.ent i) else s.ent i, s.next, s.nextVal, s.rangers⟩
+  ⟨s.pool, fun i => if i = e then f (s.ent i) else s.ent i, s.next, s.nextVal⟩
 
 def setPool (s : G) (k : Nat) (v : Option Nat) : G :=
-  ⟨fun i => if i = k then v else s.pool i, s.ent, s.next, s.nextVal, s.rangers⟩
+  ⟨fun i => if i = k then v else s.pool i, s.ent, s.next, s.nextVal⟩
 
 /-- allocate entry `s.next` with contents `E` and store it under `k` -/
 def alloc (s : G) (k : Nat) (E : Entry) : G :=
   ⟨fun i => if i = k then some s.next else s.pool i,
-   fun i => if i = s.next then E else s.ent i, s.next + 1, s.nextVal, s.rangers⟩
+   fun i => if i = s.next then E else s.ent i, s.next + 1, s.nextVal⟩
 
-def bumpVal (s : G) : G := ⟨s.pool, s.ent, s.next, s.nextVal + 1, s.rangers⟩
-def setRangers (s : G) (n : Nat) : G := ⟨s.pool, s.ent, s.next, s.nextVal, n⟩
+def bumpVal (s : G) : G := ⟨s.pool, s.ent, s.next, s.nextVal + 1⟩
 
 /-- `&usagePoolVal{refs: 1}` + `upv.Lock()` -/
 def newCtorEntry (k : Nat) : Entry :=
@@ -82,10 +80,6 @@ def newCtorEntry (k : Nat) : Entry :=
 def newStoredEntry (k v : Nat) : Entry :=
   { key := k, refs := 1, value := some v, holders := 1 }
 
-/-- `Range` can run to completion: no entry in the map is write-locked -/
-def rangeFree (s : G) : Bool :=
-  (List.range s.next).all fun e => !(inPool s e && (s.ent e).wlocked)
-
 inductive Label where
   | lnLookup (k : Nat)                 -- LoadOrNew, first region (both branches)
   | ctorOk (e : Nat)                   -- construct() returns a value; upv.value = value; upv.Unlock()
@@ -93,14 +87,12 @@ inductive Label where
   | lnFailDel (e : Nat)                -- up.Lock(); delete(up.pool, key); up.Unlock(); upv.Unlock()
   | lnRead (e : Nat)                   -- upv.RLock(); value, err = …; upv.RUnlock()
   | lsLookup (k : Nat)                 -- LoadOrStore, first region (both branches); val is value number `nextVal`
-  | lsRead (e v : Nat)                 -- upv.Lock(); if upv.err == nil {…} else {upv.value = val; upv.err = nil}; upv.Unlock()
+  | lsRead (e v : Nat)                 -- upv.RLock(); value = upv.value; failed := upv.err != nil; upv.RUnlock()  (failed: start over)
   | del1 (k : Nat) (h : Option Nat)    -- Delete, first region; `h` = the entry whose value the caller was handed (none: it holds nothing)
   | del2 (e : Nat)                     -- upv.RLock(); val := upv.value; upv.RUnlock()
   | del3 (e : Nat)                     -- destructor.Destruct()
-  | refs1 (k : Nat)                    -- References: up.RLock(); lookup; up.RUnlock()
-  | refs2 (e : Nat)                    -- atomic.LoadInt32(&upv.refs)
-  | rangeBegin                         -- up.RLock()
-  | rangeEnd                           -- all entries visited; up.RUnlock()
+  | refs (k : Nat)                     -- References: up.RLock(); lookup; atomic.LoadInt32(&upv.refs); up.RUnlock()
+  | range                              -- Range: up.RLock(); every entry whose lock TryRLock gets; up.RUnlock()
 deriving DecidableEq, Repr
 
 /-- the first region of `Delete`, after the caller's holder token (if any) was taken -/
@@ -117,7 +109,6 @@ def del1Code (s : G) (k : Nat) : G :=
     goroutine is at that place). -/
 def gstep (s : G) : Label → Option G
   | .lnLookup k =>
-    if s.rangers ≠ 0 then none else
     match s.pool k with
     | some e => some (updEnt s e fun E => { E with refs := E.refs + 1, waiters := E.waiters + 1 })
     | none => some (alloc s k (newCtorEntry k))
@@ -133,7 +124,7 @@ def gstep (s : G) : Label → Option G
         { E with err := true, ctor := E.ctor - 1, failing := E.failing + 1, ctorRuns := E.ctorRuns + 1 })
     else none
   | .lnFailDel e =>
-    if e < s.next ∧ 0 < (s.ent e).failing ∧ s.rangers = 0 then
+    if e < s.next ∧ 0 < (s.ent e).failing then
       some (updEnt (setPool s (s.ent e).key none) e fun E =>
         { E with wlocked := false, failing := E.failing - 1, deadRefs := E.deadRefs + 1 })
     else none
@@ -145,24 +136,22 @@ def gstep (s : G) : Label → Option G
         some (updEnt s e fun E => { E with waiters := E.waiters - 1, holders := E.holders + 1 })
     else none
   | .lsLookup k =>
-    if s.rangers ≠ 0 then none else
     match s.pool k with
     | some e => some (bumpVal (updEnt s e fun E => { E with refs := E.refs + 1, lsWaiters := E.lsWaiters + 1 }))
     | none => some (bumpVal (alloc s k (newStoredEntry k s.nextVal)))
-  | .lsRead e v =>
+  | .lsRead e _v =>
     if e < s.next ∧ 0 < (s.ent e).lsWaiters ∧ (s.ent e).wlocked = false then
       if (s.ent e).err then
-        -- the `else` branch of LoadOrStore: the caller's val is written into the entry, the
-        -- method returns (nil, true) and the caller believes it holds the key
-        some (updEnt s e fun E =>
-          { E with value := some v, err := false, lsWaiters := E.lsWaiters - 1, holders := E.holders + 1 })
+        -- the constructor of the loaded entry failed (the entry is no longer in the map): the
+        -- caller gives up this entry — its increment stays behind — and starts over
+        some (updEnt s e fun E => { E with lsWaiters := E.lsWaiters - 1, deadRefs := E.deadRefs + 1 })
       else
         some (updEnt s e fun E => { E with lsWaiters := E.lsWaiters - 1, holders := E.holders + 1 })
     else none
   | .del1 k none =>
-    if s.rangers ≠ 0 then none else some (del1Code s k)
+    some (del1Code s k)
   | .del1 k (some h) =>
-    if s.rangers = 0 ∧ h < s.next ∧ 0 < (s.ent h).holders ∧ (s.ent h).key = k then
+    if h < s.next ∧ 0 < (s.ent h).holders ∧ (s.ent h).key = k then
       some (del1Code (updEnt s h fun E => { E with holders := E.holders - 1 }) k)
     else none
   | .del2 e =>
@@ -176,24 +165,13 @@ def gstep (s : G) : Label → Option G
     if e < s.next ∧ 0 < (s.ent e).del3 then
       some (updEnt s e fun E => { E with del3 := E.del3 - 1, destructed := E.destructed + 1 })
     else none
-  | .refs1 k =>
-    match s.pool k with
-    | some e => some (updEnt s e fun E => { E with refReaders := E.refReaders + 1 })
-    | none => some s
-  | .refs2 e =>
-    if e < s.next ∧ 0 < (s.ent e).refReaders then
-      some (updEnt s e fun E => { E with refReaders := E.refReaders - 1 })
-    else none
-  | .rangeBegin => some (setRangers s (s.rangers + 1))
-  | .rangeEnd =>
-    if 0 < s.rangers ∧ rangeFree s = true then some (setRangers s (s.rangers - 1)) else none
+  | .refs _ => some s
+  | .range => some s
 
-/-- labels the theorems exclude:
-    * a `Delete` by a caller that holds nothing (client contract: "Deleting too many times will panic");
-    * the `else` branch of `LoadOrStore` — taken when the constructor of the loaded entry failed. -/
-def excluded (s : G) : Label → Bool
+/-- the one label the theorems exclude: a `Delete` by a caller that holds nothing (client
+    contract: "always call Delete precisely as many times as LoadOrStore"). -/
+def excluded (_s : G) : Label → Bool
   | .del1 _ none => true
-  | .lsRead e _ => (s.ent e).err
   | _ => false
 
 /-- run a schedule (a list of labels); `none` if some label is not enabled -/
@@ -214,11 +192,9 @@ def cleanRun : G → List Label → Bool
 
 /-- LoadOrNew, loaded path: `(value, err != nil)` -/
 def lnReadRet (s : G) (e : Nat) : Option Nat × Bool := ((s.ent e).value, (s.ent e).err)
-/-- LoadOrStore, loaded path: the value returned (`none` = nil) -/
-def lsReadRet (s : G) (e : Nat) : Option Nat := if (s.ent e).err then none else (s.ent e).value
-/-- References, second region -/
-def refs2Ret (s : G) (e : Nat) : Int := (s.ent e).refs
-/-- `References(k)` evaluated atomically -/
+/-- LoadOrStore, loaded path: the value returned when the entry's constructor did not fail -/
+def lsReadRet (s : G) (e : Nat) : Option Nat := (s.ent e).value
+/-- what `References(k)` returns (one region, under the pool read lock) -/
 def refsNow (s : G) (k : Nat) : Option Int := (s.pool k).map fun e => (s.ent e).refs
 
 /-! ### named goroutines, programs, forced schedules (executable driver layer) -/
@@ -240,8 +216,6 @@ inductive PC where
   | lsWait (e v : Nat)
   | delRead (e : Nat)
   | destruct (e v : Nat)
-  | refsLoad (e : Nat)
-  | ranging
 deriving DecidableEq, Repr
 
 structure Thread where
@@ -261,7 +235,7 @@ def rangeListing (s : G) (nk : Nat) : String :=
   let items := (List.range nk).filterMap fun k =>
     match s.pool k with
     | none => none
-    | some e => if (s.ent e).err then none else some (toString k ++ "=" ++ showVal (s.ent e).value)
+    | some e => if (s.ent e).wlocked || (s.ent e).err then none else some (toString k ++ "=" ++ showVal (s.ent e).value)
   if items.isEmpty then "_" else ".".intercalate items
 
 def eraseHeld (k : Nat) : List (Nat × Nat) → List (Nat × Nat)
@@ -304,7 +278,6 @@ def tmove (nk : Nat) (s : G) (th : Thread) : Move :=
   | op :: rest =>
     match th.pc, op with
     | .idle, .ln k _ =>
-      if s.rangers ≠ 0 then .blocked else
       match s.pool k with
       | some e => .go [.lnLookup k] { th with pc := .lnWait e } "Nw"
       | none => .go [.lnLookup k] { th with pc := .ctor s.next } "Ni"
@@ -312,40 +285,34 @@ def tmove (nk : Nat) (s : G) (th : Thread) : Move :=
       .go [.ctorOk e] { prog := rest, pc := .idle, held := (k, e) :: th.held } ("Co" ++ toString s.nextVal)
     | .ctor e, .ln _ false => .go [.ctorErr e] { th with pc := .lnFail e } "Cf"
     | .lnFail e, .ln _ _ =>
-      if s.rangers ≠ 0 then .blocked else .go [.lnFailDel e] { prog := rest, pc := .idle, held := th.held } "Fd"
+      .go [.lnFailDel e] { prog := rest, pc := .idle, held := th.held } "Fd"
     | .lnWait e, .ln k _ =>
       if (s.ent e).wlocked then .blocked else
       .go [.lnRead e]
         { prog := rest, pc := .idle, held := if (lnReadRet s e).2 then th.held else (k, e) :: th.held }
         ("W" ++ showVal (lnReadRet s e).1 ++ "e" ++ showBit (lnReadRet s e).2)
     | .idle, .ls k =>
-      if s.rangers ≠ 0 then .blocked else
       match s.pool k with
       | some e => .go [.lsLookup k] { th with pc := .lsWait e s.nextVal } ("Sw" ++ toString s.nextVal)
       | none => .go [.lsLookup k] { prog := rest, pc := .idle, held := (k, s.next) :: th.held } ("Ss" ++ toString s.nextVal)
     | .lsWait e v, .ls k =>
       if (s.ent e).wlocked then .blocked else
-      .go [.lsRead e v] { prog := rest, pc := .idle, held := (k, e) :: th.held } ("L" ++ showVal (lsReadRet s e))
-    | .idle, .del k => if s.rangers ≠ 0 then .blocked else delStart s th k op rest
+      if (s.ent e).err then .go [.lsRead e v] { th with pc := .idle } "Lr"   -- start over (same operation again)
+      else .go [.lsRead e v] { prog := rest, pc := .idle, held := (k, e) :: th.held } ("L" ++ showVal (lsReadRet s e))
+    | .idle, .del k => delStart s th k op rest
     | .idle, .cdel k =>
       if (findHeld k th.held).isNone then .go [] { prog := rest, pc := .idle, held := th.held } "Ds"
-      else if s.rangers ≠ 0 then .blocked else delStart s th k op rest
+      else delStart s th k op rest
     | .delRead e, .del _ => delRead s th e rest
     | .delRead e, .cdel _ => delRead s th e rest
     | .destruct e v, .del _ => .go [.del3 e] { prog := rest, pc := .idle, held := th.held } ("X" ++ toString v)
     | .destruct e v, .cdel _ => .go [.del3 e] { prog := rest, pc := .idle, held := th.held } ("X" ++ toString v)
     | .idle, .refs k =>
-      match s.pool k with
-      | none => .go [.refs1 k] { prog := rest, pc := .idle, held := th.held } "Pn"
-      | some e => .go [.refs1 k] { th with pc := .refsLoad e } "Pf"
-    | .refsLoad e, .refs _ =>
-      .go [.refs2 e] { prog := rest, pc := .idle, held := th.held } ("Q" ++ toString (refs2Ret s e))
-    | .idle, .range =>
-      if rangeFree s then .go [.rangeBegin, .rangeEnd] { prog := rest, pc := .idle, held := th.held } ("G" ++ rangeListing s nk)
-      else .go [.rangeBegin] { th with pc := .ranging } "Gb"
-    | .ranging, .range =>
-      if rangeFree s then .go [.rangeEnd] { prog := rest, pc := .idle, held := th.held } ("G" ++ rangeListing s nk)
-      else .blocked
+      .go [.refs k] { prog := rest, pc := .idle, held := th.held }
+        (match refsNow s k with
+         | none => "Pn"
+         | some r => "Q" ++ toString r)
+    | .idle, .range => .go [.range] { prog := rest, pc := .idle, held := th.held } ("G" ++ rangeListing s nk)
     | _, _ => .stuck
 
 /-- what the controller sees when it calls `References(k)` for every key after a step -/
